@@ -428,7 +428,7 @@ def next_statement(state: TokenizerState) -> Generator[TokenInfo, None, bool | N
     if state.pos == state.max:
         return False  # break parent loop
 
-    if state.line[state.pos] in "#\r\n":  # skip comments or blank lines
+    if state.line[state.pos] == "#" or state.line[state.pos :] in ("\n", "\r\n", "\r"):  # skip comments or blank lines
         if state.line[state.pos] == "#":
             comment_token = state.line[state.pos :].rstrip("\r\n")
             yield TokenInfo(
@@ -521,7 +521,8 @@ def next_psuedo_matches(state: TokenizerState) -> TokenInfo | None:
 
 def next_end_tokens(state: TokenizerState) -> Iterator[TokenInfo]:
     # Add an implicit NEWLINE if the input doesn't end in one
-    if state.last_line and state.last_line[-1] != "\n" and not state.last_line.strip().startswith("#"):
+    last = state.last_line.strip()
+    if last and state.last_line[-1] != "\n" and not last.startswith("#"):
         yield TokenInfo(
             Token.NEWLINE,
             "",
